@@ -355,3 +355,27 @@ async fn send_http_error(stream: &mut TcpStream, code: u16, message: &str) -> Re
         .await
         .map_err(AnyTlsError::Io)
 }
+
+/// Verification wrapper: parse a complete header block (plus the bytes that
+/// followed it) exactly as the proxy does and build the request it would
+/// forward. Returns (host, port, is_connect, forward_request, body).
+#[cfg(feature = "verif")]
+#[allow(clippy::type_complexity)]
+pub fn verif_parse_and_rewrite(
+    header: &str,
+    body: Vec<u8>,
+) -> Result<(String, u16, bool, Vec<u8>, Vec<u8>)> {
+    let req = parse_http_request(header, body)?;
+    let fwd = if req.is_connect {
+        Vec::new()
+    } else {
+        build_forward_request(&req)?
+    };
+    Ok((req.host.clone(), req.port, req.is_connect, fwd, req.body.clone()))
+}
+
+/// Verification wrapper of the header-terminator search.
+#[cfg(feature = "verif")]
+pub fn verif_find_header_end(buf: &[u8]) -> Option<usize> {
+    find_header_end(buf)
+}
